@@ -42,6 +42,7 @@ type Op struct {
 	Filters []map[string]sqlzoo.FVal `json:"filters"` // reads: one filter per (concurrent) call
 	Rows    []map[string]string      `json:"rows"`    // writes: the rows handed to the call
 	Batched bool                     `json:"batched"`
+	Where   bool                     `json:"where"` // the read carried SelectOptions.Where "name = ? OR kind = ?"
 	Tx      bool                     `json:"tx"`
 }
 
@@ -229,6 +230,16 @@ func Main(args []string) error {
 			}
 			rec.Errs = make([]string, ncalls)
 			rec.Got = make([][]string, ncalls)
+			// unbatched reads sometimes carry SelectOptions with a hand-written WHERE that has a top-level OR:
+			// sqlgen has to keep the limit's restriction around all of it
+			useWhere := !op.Batched && op.Kind != "count" && r.Intn(3) == 0
+			op.Where = useWhere
+			opts := func(c int) *sqlgen.SelectOptions {
+				if !useWhere {
+					return nil
+				}
+				return &sqlgen.SelectOptions{Where: "name = ? OR kind = ?", Values: []interface{}{"a", int64(1)}}
+			}
 			var wg sync.WaitGroup
 			for c := 0; c < ncalls; c++ {
 				c := c
@@ -239,14 +250,14 @@ func Main(args []string) error {
 					switch op.Kind {
 					case "query":
 						var us []*sqlzoo.User
-						if err := db.Query(ctx, &us, filters[c], nil); err != nil {
+						if err := db.Query(ctx, &us, filters[c], opts(c)); err != nil {
 							rec.Errs[c] = err.Error()
 							return
 						}
 						rec.Got[c] = sqlzoo.Ids(us)
 					case "queryrow":
 						var u *sqlzoo.User
-						if err := db.QueryRow(ctx, &u, filters[c], nil); err != nil {
+						if err := db.QueryRow(ctx, &u, filters[c], opts(c)); err != nil {
 							rec.Errs[c] = err.Error()
 							return
 						}
